@@ -115,6 +115,27 @@ example :
     (match specRun {} World.new ops with | .ok _ => true | .error _ => false) = true := by
   decide +kernel
 
+/-- `spawn_column_batch_at`, the refused half (the only part of the fifteenth operation proved so far):
+a call whose handle list and column batch differ in length, or that names an id twice, is answered by a
+panic in the model, that answer is what the specification demands, and nothing changes on either side —
+the states stay related.  (The accepted half — eviction of every entity in the way, then one batch
+insertion — is exercised against `Spec.apply` on every trace line only.) -/
+theorem spec_accepts_refused_batch_at (s : SpecW) (w : World) (h : Rel s w) (hs : List Entity) (ts : List Nat)
+    (rows : List (List Comp)) (hbad : hs.length ≠ rows.length ∨ ¬ (hs.map (·.id)).Nodup) :
+    (Hecs.step w (.spawnColumnBatchAt hs ts rows)).2.res = .panic ∧
+    apply s (.spawnColumnBatchAt hs ts rows) (Hecs.step w (.spawnColumnBatchAt hs ts rows)).2.res
+      (Hecs.step w (.spawnColumnBatchAt hs ts rows)).2.dropped = .ok s ∧
+    Rel s (Hecs.step w (.spawnColumnBatchAt hs ts rows)).1 := by
+  have h1 : Hecs.step w (.spawnColumnBatchAt hs ts rows) = (w, { res := .panic, dropped := rows.flatten }) := by
+    simp only [Hecs.step, World.spawnColumnBatchAt, if_pos hbad]
+  rw [h1]
+  refine ⟨rfl, ?_, h⟩
+  simp only [apply, if_pos hbad]
+  rfl
+
+/-- the hypothesis is satisfiable: a repeated id -/
+example : (2 : Nat) ≠ 2 ∨ ¬ (([⟨3,1⟩, ⟨3,2⟩] : List Entity).map (·.id)).Nodup := by decide
+
 /-- the oracle's comparison of dropped values is order-insensitive: lists that are permutations of each
 other are accepted as the same multiset (used wherever the order of drops is an implementation detail) -/
 theorem sameComps_accepts_perm (a b : List Comp) (h : a.Perm b) : sameComps a b = true :=
